@@ -58,8 +58,30 @@ def pconf(draw):
             "git_color_always": draw(st.sampled_from([False, False, False, True]))}
 
 
+@st.composite
+def marker_text_pair(draw):
+    """A cell whose output (or source) is the text of a `git diff` of files without final newline: git's own marker line occurs as CONTENT."""
+    a, _, _ = draw(N.pair())
+    n = draw(st.integers(1, 3))
+    def text(v):
+        return "".join('diff --git a/f%d.json b/f%d.json\n@@ -1 +1 @@\n-{"a": 1}\n\\ No newline at end of file\n+{"a": %d}\n\\ No newline at end of file\n' % (k, k, v)
+                       for k in range(n))
+    c = {"cell_type": "code", "metadata": {}, "source": "!git diff", "execution_count": 1, "outputs": [{"output_type": "stream", "name": "stdout", "text": text(2)}]}
+    if a["nbformat_minor"] >= 5:
+        c["id"] = "gitdiffcell"
+    import copy as _copy
+    a["cells"].append(c)
+    b = _copy.deepcopy(a)
+    if draw(st.booleans()):
+        b["cells"][-1]["outputs"][0]["text"] = text(3)
+    else:
+        a["cells"][-1]["source"] = text(2)
+        b["cells"][-1]["source"] = text(3)
+    return a, b
+
+
 def strategy(tier):
-    n = st.tuples(N.pair(), pconf()).map(lambda t: {"kind": "nb", "a": t[0][0], "b": t[0][1], "conf": t[1]})
+    n = st.tuples(st.one_of(*([N.pair()] * 19 + [marker_text_pair()])), pconf()).map(lambda t: {"kind": "nb", "a": t[0][0], "b": t[0][1], "conf": t[1]})
     m = st.tuples(N.triple(), S.strategy_args(renderers=["git"]), pconf()).map(
         lambda t: {"kind": "merge", "base": t[0][0], "local": t[0][1], "remote": t[0][2], "args": t[1], "conf": t[2]})
     return st.one_of(n, n, m)
